@@ -2532,3 +2532,580 @@ func discardedByKind(p *Prog, call ssa.Instruction, fReset *types.Var) bool {
 	}
 	return false
 }
+
+// ---------------------------------------------------------------------------
+// DOM/rpc-dispatch (C07, C08): the request dispatcher of the WebSocket
+// protocol. (a) Nothing is dispatched for a frame without an id: every call of
+// a Requester method lies behind Request.ID != nil — a reply to such a frame
+// would carry "id":null, an answer to a request nobody made. (b) In the
+// continuation of a request, the success reply is built exactly where the
+// outcome is success (err == nil, or ok for the unsubscribe), the error reply
+// exactly where it is not.
+func ruleRPCDispatch(c *Ctx) {
+	p := c.P
+	fn := p.Fn("rpc.HandleRequest")
+	fID := p.Field("rpc.Request.ID")
+	reqT := p.Named("rpc.Requester")
+	succ := p.Method("rpc.Request.SuccessResponse")
+	errR := p.Method("rpc.Request.ErrorResponse")
+	if fn == nil || fID == nil || reqT == nil || succ == nil || errR == nil {
+		c.undecided("rpc.HandleRequest", "anchor", "-", "not found")
+		return
+	}
+	hasID := func(i *ssa.If) (bool, bool) {
+		for _, d := range []bool{true, false} {
+			if x, nn, ok := nilTest(i, d); ok && nn {
+				if f, _ := fieldLoad(x); f == fID {
+					return d, true
+				}
+			}
+		}
+		return false, false
+	}
+	n := 0
+	for _, g := range p.withNewHelpers(fn) {
+		for _, call := range callsIn(g) {
+			cc := call.Common()
+			if !cc.IsInvoke() || !types.Identical(cc.Value.Type(), reqT) {
+				continue
+			}
+			n++
+			c.inst(1)
+			c.check(p.guardedUp(call, hasID, 0), fnName(g), "nothing is dispatched or replied for a frame without an id ("+cc.Method.Name()+")", p.InstrPos(call), "behind Request.ID != nil",
+				"a Requester method is reached for a frame whose id is missing: the request is carried out and the client is sent a reply with \"id\":null")
+		}
+	}
+	if n < 5 {
+		c.viol(fnName(fn), "nothing is dispatched or replied for a frame without an id", p.Pos(fn.Pos()), fmt.Sprintf("only %d dispatch sites found: anchor lost", n))
+	}
+	// (b) reply polarity inside the continuations
+	for _, g := range p.withNewHelpers(fn) {
+		if g.Parent() == nil {
+			continue
+		}
+		var errP, okP *ssa.Parameter
+		for _, prm := range g.Params {
+			if isErrorType(prm.Type()) {
+				errP = prm
+			} else if bt, ok := prm.Type().Underlying().(*types.Basic); ok && bt.Kind() == types.Bool {
+				okP = prm
+			}
+		}
+		if errP == nil && okP == nil {
+			continue
+		}
+		outcome := func(success bool) guardPred {
+			return func(i *ssa.If) (bool, bool) {
+				if errP != nil {
+					for _, d := range []bool{true, false} {
+						if x, nn, ok := nilTest(i, d); ok && x == ssa.Value(errP) && nn != success {
+							return d, true
+						}
+					}
+				}
+				if okP != nil {
+					v, neg := ssa.Value(i.Cond), false
+					if u, ok := v.(*ssa.UnOp); ok && u.Op == token.NOT {
+						v, neg = u.X, true
+					}
+					if v == ssa.Value(okP) {
+						return success != neg, true
+					}
+				}
+				return false, false
+			}
+		}
+		for _, call := range callsIn(g) {
+			m := calleeFunc(call.Common())
+			if m != succ && m != errR {
+				continue
+			}
+			c.inst(1)
+			want := m == succ
+			what := "the error reply is built only where the request failed"
+			if want {
+				what = "the success reply is built only where the request succeeded"
+			}
+			c.check(p.guardedByOpt(call, outcome(want), false) != nil, fnName(g), what, p.InstrPos(call), "behind the outcome test of the continuation",
+				"the reply does not follow the outcome handed to the continuation: a request that succeeded is answered with an error (or the other way round) — the client's view of its subscriptions and the gateway's part")
+		}
+	}
+}
+
+// ---------------------------------------------------------------------------
+// DOM/proper-values (C15, C01): resource content that comes from a service — a
+// model, a collection, the value of an add event — is accepted by its decoder
+// only after every value has passed Value.IsProper (a delete action or a
+// value without type is no content). For every (decoder, content member) pair
+// of the table there is an IsProper test on the member's values whose failing
+// edge leaves the decoder with an error.
+var properTable = []struct{ fn, field string }{
+	{"codec.DecodeGetResponse", "codec.GetResult.Model"},
+	{"codec.DecodeGetResponse", "codec.GetResult.Collection"},
+	{"codec.DecodeEventQueryResponse", "codec.EventQueryResult.Model"},
+	{"codec.DecodeEventQueryResponse", "codec.EventQueryResult.Collection"},
+	{"codec.DecodeAddEvent", "codec.AddEvent.Value"},
+}
+
+func ruleProperValues(c *Ctx) {
+	p := c.P
+	isProper := p.Method("codec.Value.IsProper")
+	if isProper == nil {
+		c.undecided("codec.Value.IsProper", "anchor", "-", "not found")
+		return
+	}
+	// where does the tested value come from?
+	var origin func(v ssa.Value, depth int, out map[*types.Var]bool)
+	origin = func(v ssa.Value, depth int, out map[*types.Var]bool) {
+		if depth > 10 || v == nil {
+			return
+		}
+		v = stripConv(v)
+		switch x := v.(type) {
+		case *ssa.UnOp:
+			if x.Op == token.MUL {
+				if fa, ok := x.X.(*ssa.FieldAddr); ok {
+					out[fieldOfAddr(fa)] = true
+					origin(fa.X, depth+1, out)
+					return
+				}
+				if al, ok := x.X.(*ssa.Alloc); ok && al.Referrers() != nil {
+					for _, r := range *al.Referrers() {
+						if st, ok := r.(*ssa.Store); ok && st.Addr == ssa.Value(al) {
+							origin(st.Val, depth+1, out)
+						}
+					}
+					return
+				}
+				origin(x.X, depth+1, out)
+			}
+		case *ssa.FieldAddr:
+			out[fieldOfAddr(x)] = true
+			origin(x.X, depth+1, out)
+		case *ssa.Field:
+			if st, ok := x.X.Type().Underlying().(*types.Struct); ok && x.Field < st.NumFields() {
+				out[st.Field(x.Field)] = true
+			}
+			origin(x.X, depth+1, out)
+		case *ssa.IndexAddr:
+			origin(x.X, depth+1, out)
+		case *ssa.Index:
+			origin(x.X, depth+1, out)
+		case *ssa.Lookup:
+			origin(x.X, depth+1, out)
+		case *ssa.Extract:
+			origin(x.Tuple, depth+1, out)
+		case *ssa.Next:
+			origin(x.Iter, depth+1, out)
+		case *ssa.Range:
+			origin(x.X, depth+1, out)
+		case *ssa.Phi:
+			for _, e := range x.Edges {
+				origin(e, depth+1, out)
+			}
+		case *ssa.Parameter:
+			fn := x.Parent()
+			n := p.CG.Nodes[fn]
+			idx := -1
+			for i, prm := range fn.Params {
+				if prm == x {
+					idx = i
+				}
+			}
+			if n == nil || idx < 0 {
+				return
+			}
+			for _, e := range n.In {
+				if e.Site != nil && e.Site.Common().StaticCallee() == fn && idx < len(callArgs(e.Site.Common())) {
+					origin(callArgs(e.Site.Common())[idx], depth+1, out)
+				}
+			}
+		}
+	}
+	for _, row := range properTable {
+		fn := p.Fn(row.fn)
+		f := p.Field(row.field)
+		if fn == nil || f == nil {
+			c.undecided(row.fn, "anchor", "-", row.field+" not found")
+			continue
+		}
+		c.inst(1)
+		found := false
+		for _, g := range p.withNewHelpers(fn) {
+			for _, call := range callsIn(g) {
+				if calleeFunc(call.Common()) != isProper {
+					continue
+				}
+				cv, ok := call.(*ssa.Call)
+				if !ok {
+					continue
+				}
+				from := map[*types.Var]bool{}
+				origin(callArgs(call.Common())[0], 0, from)
+				if !from[f] {
+					continue
+				}
+				// the test decides: its result is the condition of a branch (possibly negated), or what a
+				// predicate helper returns
+				used := false
+				if cv.Referrers() != nil {
+					for _, r := range *cv.Referrers() {
+						switch y := r.(type) {
+						case *ssa.If:
+							used = true
+						case *ssa.UnOp:
+							if y.Op == token.NOT {
+								used = true
+							}
+						case *ssa.Return, *ssa.Phi, *ssa.BinOp:
+							used = true
+						}
+					}
+				}
+				if used {
+					found = true
+				}
+			}
+		}
+		c.check(found, row.fn, "service content is accepted only after every value passed IsProper ("+row.field+")", p.Pos(fn.Pos()), "an IsProper test on the values of "+row.field+" decides the decoder's outcome",
+			"no live IsProper test on the values of "+row.field+": a delete action or a typeless value in service content is stored in the cache and sent to clients as if it were a value")
+	}
+}
+
+// ---------------------------------------------------------------------------
+// DOM/exclusive-members (C15): an answer that carries two alternative content
+// members at once (a model and a collection, events and a model, ...) is
+// ambiguous and refused as a whole: for each pair there is an error return
+// that lies behind both members being present. Also: a value object is taken
+// for a delete action only behind the comparison of its action with the one
+// known action name.
+var exclusiveTable = []struct {
+	fn   string
+	a, b string
+}{
+	{"codec.DecodeGetResponse", "codec.GetResult.Model", "codec.GetResult.Collection"},
+	{"codec.DecodeEventQueryResponse", "codec.EventQueryResult.Model", "codec.EventQueryResult.Collection"},
+	{"codec.DecodeEventQueryResponse", "codec.EventQueryResult.Events", "codec.EventQueryResult.Model"},
+	{"codec.DecodeEventQueryResponse", "codec.EventQueryResult.Events", "codec.EventQueryResult.Collection"},
+}
+
+func ruleExclusiveMembers(c *Ctx) {
+	p := c.P
+	present := func(f *types.Var) guardPred {
+		return func(i *ssa.If) (bool, bool) {
+			for _, d := range []bool{true, false} {
+				if x, nn, ok := nilTest(i, d); ok && nn {
+					if g, _ := fieldLoad(x); g == f {
+						return d, true
+					}
+				}
+			}
+			return false, false
+		}
+	}
+	for _, row := range exclusiveTable {
+		fn := p.Fn(row.fn)
+		fa, fb := p.Field(row.a), p.Field(row.b)
+		if fn == nil || fa == nil || fb == nil {
+			c.undecided(row.fn, "anchor", "-", row.a+" / "+row.b+" not found")
+			continue
+		}
+		c.inst(1)
+		found := false
+		for _, g := range p.withNewHelpers(fn) {
+			for _, in := range instrsOf(g) {
+				r, ok := in.(*ssa.Return)
+				if !ok || len(r.Results) == 0 {
+					continue
+				}
+				last := r.Results[len(r.Results)-1]
+				if !isErrorType(last.Type()) || isNilConst(last) {
+					continue
+				}
+				if p.guardedByOpt(r, present(fa), false) != nil && p.guardedByOpt(r, present(fb), false) != nil {
+					found = true
+				}
+			}
+			// `if a != nil { if b != nil || c != nil { return err } }`: the test of one member lies behind the other
+			// being present, and its present edge goes straight to an error return
+			errBlock := func(b *ssa.BasicBlock) bool {
+				for k := 0; k < 3 && b != nil; k++ {
+					if len(b.Instrs) == 0 {
+						return false
+					}
+					switch x := b.Instrs[len(b.Instrs)-1].(type) {
+					case *ssa.Return:
+						if len(x.Results) == 0 {
+							return false
+						}
+						last := x.Results[len(x.Results)-1]
+						return isErrorType(last.Type()) && !isNilConst(last)
+					case *ssa.Jump:
+						b = b.Succs[0]
+					default:
+						return false
+					}
+				}
+				return false
+			}
+			for _, pair := range [][2]*types.Var{{fa, fb}, {fb, fa}} {
+				live := liveBlocks(g)
+				for _, blk := range g.Blocks {
+					i := blockIf(blk)
+					if i == nil || (live != nil && !live[blk]) {
+						continue
+					}
+					d, ok := present(pair[1])(i)
+					if !ok || p.guardedByOpt(i, present(pair[0]), false) == nil {
+						continue
+					}
+					succ := blk.Succs[0]
+					if !d {
+						succ = blk.Succs[1]
+					}
+					if errBlock(succ) {
+						found = true
+					}
+				}
+			}
+		}
+		c.check(found, row.fn, "an answer with two alternative content members is refused ("+fa.Name()+" and "+fb.Name()+")", p.Pos(fn.Pos()), "an error return lies behind both members being present",
+			"no error return lies behind "+fa.Name()+" != nil and "+fb.Name()+" != nil: an ambiguous answer is applied as one of the two")
+	}
+	// the delete action
+	if fn := p.Fn("(*codec.Value).UnmarshalJSON"); fn != nil {
+		fType := p.Field("codec.Value.Type")
+		kDel := p.ConstInt("codec.ValueTypeDelete", -1)
+		n := 0
+		for _, g := range p.withNewHelpers(fn) {
+			for _, in := range instrsOf(g) {
+				st, ok := in.(*ssa.Store)
+				if !ok {
+					continue
+				}
+				fa, ok := st.Addr.(*ssa.FieldAddr)
+				if !ok || fieldOfAddr(fa) != fType {
+					continue
+				}
+				if k, isK := constInt(st.Val); !isK || k != kDel {
+					continue
+				}
+				n++
+				c.inst(1)
+				named := func(i *ssa.If) (bool, bool) {
+					b, ok := i.Cond.(*ssa.BinOp)
+					if !ok || (b.Op != token.EQL && b.Op != token.NEQ) {
+						return false, false
+					}
+					_, xs := constString(b.X)
+					_, ys := constString(b.Y)
+					if xs == ys {
+						return false, false
+					}
+					return b.Op == token.EQL, true
+				}
+				c.check(p.guardedBy(st, named) != nil, fnName(g), "a value object is a delete action only if its action is the known one", p.InstrPos(st), "behind the comparison of the action with its name",
+					"a value is typed as delete action on a path that has not compared the action with \"delete\": any unknown action deletes the property")
+			}
+		}
+		if n == 0 {
+			c.note("no store of ValueTypeDelete in UnmarshalJSON")
+		}
+	}
+}
+
+// ---------------------------------------------------------------------------
+// DOM/map-arg-made (C15): a function that writes into a map it is given
+// (MergeHeader(a, b): a[k] = v) is handed a map that exists: where the
+// argument is a member that is created on demand, the call lies behind the
+// member being non-nil or behind its creation. A nil map there is an
+// "assignment to entry in nil map" panic on a connection worker.
+func ruleMapArgMade(c *Ctx) {
+	p := c.P
+	// functions that write into a map parameter
+	writes := map[*ssa.Function]int{}
+	for _, fn := range p.Repo {
+		if fn.Parent() != nil || !inScopePkgs(fn, "server", "rescache", "codec", "rpc") {
+			continue
+		}
+		for _, in := range instrsOf(fn) {
+			if mu, ok := in.(*ssa.MapUpdate); ok {
+				if prm, ok := mu.Map.(*ssa.Parameter); ok {
+					for i, q := range fn.Params {
+						if q == prm {
+							writes[fn] = i
+						}
+					}
+				}
+			}
+		}
+	}
+	n := 0
+	for _, fn := range p.Repo {
+		if !inScopePkgs(fn, "server", "rescache", "codec", "rpc") {
+			continue
+		}
+		for _, call := range callsIn(fn) {
+			sf := call.Common().StaticCallee()
+			idx, ok := writes[sf]
+			if sf == nil || !ok {
+				continue
+			}
+			args := callArgs(call.Common())
+			if idx >= len(args) {
+				continue
+			}
+			f, _ := fieldLoad(args[idx])
+			if f == nil {
+				continue // a local made here, or a parameter: the caller's obligation
+			}
+			if len(p.stores[f]) == 0 {
+				continue // not a member the repository creates on demand (decoded content: presence is its kind)
+			}
+			n++
+			c.inst(1)
+			nonNil := func(i *ssa.If) (bool, bool) {
+				for _, d := range []bool{true, false} {
+					if x, nn, ok := nilTest(i, d); ok && nn {
+						if g, _ := fieldLoad(x); g == f {
+							return d, true
+						}
+					}
+				}
+				return false, false
+			}
+			made := false
+			for _, in := range instrsOf(fn) {
+				if st, ok := in.(*ssa.Store); ok {
+					if fa, ok := st.Addr.(*ssa.FieldAddr); ok && fieldOfAddr(fa) == f && !isNilConst(st.Val) && dominates(st, call) {
+						made = true
+					}
+				}
+			}
+			c.check(made || p.guardedBy(call, nonNil) != nil, fnName(fn), "a map handed to a function that writes into it exists ("+fnName(sf)+", "+f.Name()+")", p.InstrPos(call), "behind "+f.Name()+" != nil, or made on the path",
+				"the member "+f.Name()+" may be nil where it is handed to "+fnName(sf)+", which assigns into it: assignment to entry in nil map (panic on the worker that merges the meta of two answers)")
+		}
+	}
+	if n == 0 {
+		c.note("no member map handed to a writing function")
+	}
+}
+
+// ---------------------------------------------------------------------------
+// PAIR/respond-once (C17, C16): an HTTP exchange is answered once. On every
+// path of every function that is handed the http.ResponseWriter (the handlers,
+// and the continuation that writes the outcome of a request) at most one
+// response is produced: one helper that responds (httpError, notFoundHandler,
+// httpStatusResponse, a delegated handler), or one WebSocket upgrade, or the
+// function's own status line / body. A second one after the first puts an
+// error body under a status already sent, or upgrades a request that was
+// refused.
+func ruleRespondOnce(c *Ctx) {
+	p := c.P
+	isRW := func(t types.Type) bool { return strings.HasSuffix(t.String(), "net/http.ResponseWriter") }
+	// functions that produce a response through a writer they are given
+	responds := map[*ssa.Function]bool{}
+	direct := func(call ssa.CallInstruction) string {
+		cc := call.Common()
+		if cc.IsInvoke() && isRW(cc.Value.Type()) {
+			switch cc.Method.Name() {
+			case "WriteHeader":
+				return "status"
+			case "Write":
+				return "body"
+			}
+			return ""
+		}
+		if m := calleeFunc(cc); m != nil && m.Name() == "Upgrade" && m.Pkg() != nil && strings.Contains(m.Pkg().Path(), "websocket") {
+			return "upgrade"
+		}
+		return ""
+	}
+	var fns []*ssa.Function
+	for _, fn := range p.Repo {
+		if inScopePkgs(fn, "server") {
+			fns = append(fns, fn)
+		}
+	}
+	for changed := true; changed; {
+		changed = false
+		for _, fn := range fns {
+			if responds[fn] {
+				continue
+			}
+			for _, call := range callsIn(fn) {
+				if _, isDefer := call.(*ssa.Defer); isDefer {
+					continue
+				}
+				if direct(call) != "" {
+					responds[fn] = true
+				} else if sf := call.Common().StaticCallee(); sf != nil && responds[sf] {
+					passes := false
+					for _, a := range call.Common().Args {
+						if isRW(a.Type()) {
+							passes = true
+						}
+					}
+					if passes {
+						responds[fn] = true
+					}
+				}
+				if responds[fn] {
+					changed = true
+					break
+				}
+			}
+		}
+	}
+	n := 0
+	serveHTTP := p.Fn("(*server.Service).ServeHTTP")
+	for _, fn := range fns {
+		if !responds[fn] {
+			continue
+		}
+		n++
+		c.inst(1)
+		sp := &Spec{NoHelpers: true, NoCombs: true, EdgeLimit: 1}
+		sp.Classify = func(t *Tracer, fr *Frame, in ssa.Instruction) []Ev {
+			call, ok := in.(ssa.CallInstruction)
+			if !ok || fr != t.RootFr {
+				return nil
+			}
+			if _, isDefer := call.(*ssa.Defer); isDefer {
+				return nil
+			}
+			if k := direct(call); k != "" {
+				return []Ev{{Kind: k}}
+			}
+			if sf := call.Common().StaticCallee(); sf != nil && responds[sf] {
+				for _, a := range call.Common().Args {
+					if isRW(a.Type()) {
+						return []Ev{{Kind: "helper", Note: fnName(sf), Stop: true}}
+					}
+				}
+			}
+			return nil
+		}
+		tr := runTrace(p, fn, sp)
+		bad := ""
+		for _, path := range tr.Paths {
+			k := countKind(path, "helper") + countKind(path, "upgrade")
+			if countKind(path, "status") > 0 || countKind(path, "body") > 0 {
+				k++
+			}
+			if k > 1 || countKind(path, "status") > 1 {
+				bad = "two responses on one path: " + tr.FmtPath(path)
+			}
+			if k == 0 && fn == serveHTTP {
+				bad = "a path of the top-level handler hands the request to nobody and writes nothing: the client gets an empty 200"
+			}
+		}
+		if tr.Trunc {
+			bad = "path budget exhausted"
+		}
+		c.check(bad == "", fnName(fn), "an HTTP exchange is answered at most once on every path", p.Pos(fn.Pos()), fmt.Sprintf("%d paths", len(tr.Paths)), bad)
+	}
+	if n == 0 {
+		c.viol("server", "an HTTP exchange is answered at most once on every path", "-", "no responding function found: anchor lost")
+	}
+}
